@@ -80,12 +80,14 @@ const NestContract = `access(all) contract N {
     access(mapping Identity) var dict: {String: [Int]}
     access(all) var leaf: Leaf
     access(all) var optLeaf: Leaf?
+    access(all) var optStr: String?
+    access(all) var optArr: [Int]?
     access(mapping Identity) var kids: @{Int: Box}
     access(mapping Identity) var list: @[Box]
     access(mapping Identity) var opt: @Box?
     init(_ id: Int, _ n: Int) {
       self.id = id; self.arr = N.range(id, n); self.strs = []; self.dict = {}
-      self.leaf = Leaf(id, 0); self.optLeaf = nil
+      self.leaf = Leaf(id, 0); self.optLeaf = nil; self.optStr = nil; self.optArr = nil
       self.kids <- {}; self.list <- []; self.opt <- nil
     }
     access(all) fun setArr(_ a: [Int]) { self.arr = a }
@@ -104,6 +106,8 @@ const NestContract = `access(all) contract N {
     access(all) fun leafDropName(_ k: String) { self.leaf.dropName(k) }
     access(all) fun setOptLeaf(_ l: Leaf?) { self.optLeaf = l }
     access(all) fun optLeafGrow(_ n: Int) { self.optLeaf!.grow(n) }
+    access(all) fun setOptStr(_ s: String?) { self.optStr = s }
+    access(all) fun setOptArr(_ a: [Int]?) { self.optArr = a }
     access(all) fun putKid(_ k: Int, _ b: @Box) { let old <- self.kids[k] <- b; destroy old }
     access(all) fun takeKid(_ k: Int): @Box { return <- self.kids.remove(key: k)! }
     access(all) fun kidRef(_ k: Int): auth(Mutate) &Box? { return &self.kids[k] as auth(Mutate) &Box? }
@@ -124,6 +128,10 @@ const NestContract = `access(all) contract N {
       while i < self.list.length { let e = &self.list[i] as &Box; s = s.concat(e.desc()).concat(","); i = i + 1 }
       s = s.concat("] O:")
       if let o = &self.opt as &Box? { s = s.concat(o.desc()) } else { s = s.concat("-") }
+      s = s.concat(" S:")
+      if let x = self.optStr { s = s.concat(x.length.toString()) } else { s = s.concat("-") }
+      s = s.concat(" R:")
+      if let x = self.optArr { s = s.concat(N.da(x)) } else { s = s.concat("-") }
       s = s.concat(" A:")
       if let a = self[Att] { s = s.concat(a.d()) } else { s = s.concat("-") }
       return s.concat("]")
@@ -229,6 +237,9 @@ type NBox struct {
 	Dict    map[string][]int
 	Leaf    *NLeaf
 	OptLeaf *NLeaf
+	OptStr  int   // length of the optional string field, -1 = nil
+	OptArr  []int // optional array field
+	HasArr  bool
 	Kids    map[int]*NBox
 	List    []*NBox
 	Opt     *NBox
@@ -237,7 +248,7 @@ type NBox struct {
 }
 
 func newBox(id, n int) *NBox {
-	return &NBox{ID: id, Arr: rng(id, n), Dict: map[string][]int{}, Leaf: newLeaf(id, 0), Kids: map[int]*NBox{}}
+	return &NBox{ID: id, Arr: rng(id, n), Dict: map[string][]int{}, Leaf: newLeaf(id, 0), Kids: map[int]*NBox{}, OptStr: -1}
 }
 
 func (b *NBox) clone() *NBox {
@@ -245,7 +256,7 @@ func (b *NBox) clone() *NBox {
 		return nil
 	}
 	c := &NBox{ID: b.ID, Arr: append([]int(nil), b.Arr...), Strs: append([]int(nil), b.Strs...), Dict: map[string][]int{},
-		Leaf: b.Leaf.clone(), OptLeaf: b.OptLeaf.clone(), Kids: map[int]*NBox{}, Opt: b.Opt.clone(), HasAtt: b.HasAtt, Att: append([]int(nil), b.Att...)}
+		Leaf: b.Leaf.clone(), OptLeaf: b.OptLeaf.clone(), OptStr: b.OptStr, OptArr: append([]int(nil), b.OptArr...), HasArr: b.HasArr, Kids: map[int]*NBox{}, Opt: b.Opt.clone(), HasAtt: b.HasAtt, Att: append([]int(nil), b.Att...)}
 	for k, v := range b.Dict {
 		c.Dict[k] = append([]int(nil), v...)
 	}
@@ -291,6 +302,18 @@ func (b *NBox) desc() string {
 	} else {
 		s += "-"
 	}
+	s += " S:"
+	if b.OptStr >= 0 {
+		s += fmt.Sprint(b.OptStr)
+	} else {
+		s += "-"
+	}
+	s += " R:"
+	if b.HasArr {
+		s += da(b.OptArr)
+	} else {
+		s += "-"
+	}
 	s += " A:"
 	if b.HasAtt {
 		s += da(b.Att)
@@ -305,7 +328,7 @@ func (b *NBox) slabby() bool {
 	if b == nil {
 		return false
 	}
-	if len(b.Arr) >= bigLen || b.Leaf.slabby() || b.OptLeaf.slabby() || len(b.Att) >= bigLen {
+	if len(b.Arr) >= bigLen || b.Leaf.slabby() || b.OptLeaf.slabby() || len(b.Att) >= bigLen || b.OptStr >= 600 || len(b.OptArr) >= bigLen {
 		return true
 	}
 	for _, l := range b.Strs {
@@ -793,6 +816,28 @@ func (m *NestModel) Apply(o NestOp, f *NestFacts) (ok bool) {
 			return false
 		}
 		b.OptLeaf.Data = append(b.OptLeaf.Data, rng(len(b.OptLeaf.Data), o.N)...)
+	case "optStrSet":
+		if b.OptStr >= 0 {
+			rm(b.OptStr >= 600)
+		}
+		b.OptStr = o.N
+	case "optStrClear":
+		if b.OptStr < 0 {
+			return false
+		}
+		rm(b.OptStr >= 600)
+		b.OptStr = -1
+	case "optArrSet":
+		if b.HasArr {
+			rm(len(b.OptArr) >= bigLen)
+		}
+		b.HasArr, b.OptArr = true, rng(o.K, o.N)
+	case "optArrClear":
+		if !b.HasArr {
+			return false
+		}
+		rm(len(b.OptArr) >= bigLen)
+		b.HasArr, b.OptArr = false, nil
 	case "kidPut", "kidPutDirect":
 		if old, ok := b.Kids[o.K]; ok {
 			rm(old.slabby())
@@ -1093,6 +1138,14 @@ func renderNestOp(i int, o NestOp) (lines []string) {
 		w(`%s.setOptLeaf(nil)`, r)
 	case "optLeafGrow":
 		w(`%s.optLeafGrow(%d)`, r, o.N)
+	case "optStrSet":
+		w(`%s.setOptStr(N.str(%d, %d))`, r, i, o.N)
+	case "optStrClear":
+		w(`%s.setOptStr(nil)`, r)
+	case "optArrSet":
+		w(`%s.setOptArr(N.range(%d, %d))`, r, o.K, o.N)
+	case "optArrClear":
+		w(`%s.setOptArr(nil)`, r)
 	case "kidPut":
 		w(`%s.putKid(%d, <- N.mk(%d, %d))`, r, o.K, o.ID, o.N)
 	case "kidPutDirect":
@@ -1241,6 +1294,7 @@ var nestOpKinds = []string{
 	"moveKid", "listToKid", "optToKid", "kidToTop", "topToKid", "moveTop", "destroyTop",
 	"attach", "attAdd", "detach", "dropLeaf", "copyLeaf", "growStoredLeaf", "nameStoredLeaf",
 	"ctrAdd", "ctrRemove", "ctrUpdate",
+	"optStrSet", "optStrClear", "optArrSet", "optArrClear",
 }
 
 func sortedKeys[V any](m map[int]V) []int {
@@ -1384,6 +1438,20 @@ func genNestOp(s Src, m *NestModel, focus *NestOp) (NestOp, bool) {
 	case "arrAppend", "arrSet", "leafSet", "leafGrow", "optLeafSet":
 		o.Box, _, ok = pickBox("box", nil)
 		o.K, o.N = s.Intn("from", 50), genSize(s)
+		return o, ok
+	case "optStrSet":
+		o.Box, _, ok = pickBox("box", nil)
+		o.N = nestStrSizes[s.Intn("strsize", len(nestStrSizes))]
+		return o, ok
+	case "optStrClear":
+		o.Box, _, ok = pickBox("box", func(_ Sel, b *NBox) bool { return b.OptStr >= 0 })
+		return o, ok
+	case "optArrSet":
+		o.Box, _, ok = pickBox("box", nil)
+		o.K, o.N = s.Intn("from", 50), genSize(s)
+		return o, ok
+	case "optArrClear":
+		o.Box, _, ok = pickBox("box", func(_ Sel, b *NBox) bool { return b.HasArr })
 		return o, ok
 	case "arrDrop":
 		o.Box, b, ok = pickBox("box", func(_ Sel, b *NBox) bool { return len(b.Arr) > 0 })
